@@ -63,6 +63,8 @@ type Case struct {
 	DstRef   string        `json:"dstref"` // "" = blank
 	MapRoot  int           `json:"maproot"` // -1, or the node MapRoot maps the root to
 	Platform string        `json:"platform"` // "" or the architecture given to WithTargetPlatform
+	PlatVar  string        `json:"platvar"`  // optional Variant of the target platform ("" = none)
+	PlatFeat string        `json:"platfeat"` // optional single OSFeature of the target platform
 	FailCb   string        `json:"failcb"`  // "" or pre|post|skip : this callback fails ...
 	FailNode int           `json:"failnode"` // ... on this node
 	Seed     uint64        `json:"seed"`    // latency PRNG
@@ -473,7 +475,7 @@ func expectedRoot(c *Case, g *dag.Graph) int {
 			return -1
 		}
 		for i, m := range ix.Manifests {
-			if m.Platform != nil && m.Platform.Architecture == c.Platform && m.Platform.OS == "linux" {
+			if m.Platform != nil && m.Platform.Architecture == c.Platform && m.Platform.OS == "linux" && c.PlatVar == "" && c.PlatFeat == "" {
 				return n.Succ[len(n.Succ)-len(ix.Manifests)+i]
 			}
 		}
@@ -704,7 +706,11 @@ func Execute(c *Case) *Result {
 				}
 			}
 			if c.Platform != "" {
-				opts.WithTargetPlatform(&ocispec.Platform{Architecture: c.Platform, OS: "linux"})
+				tp := &ocispec.Platform{Architecture: c.Platform, OS: "linux", Variant: c.PlatVar}
+				if c.PlatFeat != "" {
+					tp.OSFeatures = []string{c.PlatFeat}
+				}
+				opts.WithTargetPlatform(tp)
 			}
 			if inner := opts.MapRoot; inner != nil {
 				opts.MapRoot = func(ctx context.Context, s content.ReadOnlyStorage, d ocispec.Descriptor) (ocispec.Descriptor, error) {
@@ -845,8 +851,46 @@ func ModelInput(res *Result) string {
 		mode += "m"
 	}
 	mode += "/" + c.cbBits()
-	return fmt.Sprintf("%d %d %s %d %s %s %s %s rp=%s:%d:%d:%d", len(g.Nodes), c.K, mode, root, ints(cached0),
-		strings.Join(nodes, ";"), ints(d0), tr, c.Stream, c.GenSeed, b2i(c.Thorough), c.Seed)
+	return fmt.Sprintf("%d %d %s %d %s %s %s %s %srp=%s:%d:%d:%d", len(g.Nodes), c.K, mode, root, ints(cached0),
+		strings.Join(nodes, ";"), ints(d0), tr, platformField(c, g), c.Stream, c.GenSeed, b2i(c.Thorough), c.Seed)
+}
+
+var archID = map[string]int{"": 0, "amd64": 1, "arm64": 2}
+
+// platformField renders WithTargetPlatform's input for the model: the wanted platform and the
+// index entries (node, architecture, OS) in manifest order, strings abstracted to numbers.
+func platformField(c *Case, g *dag.Graph) string {
+	if c.Platform == "" {
+		return ""
+	}
+	root := c.Root
+	if c.MapRoot >= 0 {
+		root = c.MapRoot
+	}
+	n := g.Nodes[root]
+	if n.Kind != dag.KIndex && n.Kind != dag.KDockerL {
+		return ""
+	}
+	var ix struct {
+		Manifests []ocispec.Descriptor `json:"manifests"`
+	}
+	if json.Unmarshal(n.Bytes, &ix) != nil {
+		return ""
+	}
+	var es []string
+	for i, m := range ix.Manifests {
+		id := n.Succ[len(n.Succ)-len(ix.Manifests)+i]
+		if m.Platform == nil {
+			es = append(es, fmt.Sprintf("%d.-.0", id))
+		} else {
+			es = append(es, fmt.Sprintf("%d.%d.%d", id, archID[m.Platform.Architecture], 1))
+		}
+	}
+	feat := "-"
+	if c.PlatFeat != "" {
+		feat = "1"
+	}
+	return fmt.Sprintf("pl=%d.1.0.%d.%s@%s ", archID[c.Platform], b2i(c.PlatVar != ""), feat, strings.Join(es, ","))
 }
 
 func b2i(b bool) int {
@@ -865,6 +909,26 @@ func ints(xs []int) string {
 		s[i] = fmt.Sprint(x)
 	}
 	return strings.Join(s, ",")
+}
+
+// implSel: what WithTargetPlatform selected, as far as the implementation shows it (the node Copy
+// returned; "-" when Copy failed before copying).
+func implSel(res *Result) string {
+	if platformField(res.Case, res.G) == "" {
+		return ""
+	}
+	if res.Err != nil && len(res.Toks) == 1 {
+		return " sel=-"
+	}
+	if res.Err != nil {
+		return fmt.Sprintf(" sel=%d", res.Root2) // failed later (injected fault): the selection is not observable
+	}
+	for _, n := range res.G.Nodes {
+		if n.Desc.Digest == res.Returned.Digest && n.Desc.MediaType == res.Returned.MediaType {
+			return fmt.Sprintf(" sel=%d", n.ID)
+		}
+	}
+	return " sel=?"
 }
 
 // ImplObs is the implementation's projected observable, same shape as the model's line.
@@ -893,5 +957,5 @@ func ImplObs(res *Result) string {
 	if res.Err == nil {
 		gauges = fmt.Sprintf("ms=%d md=%d", res.SrcMax, res.DstMax)
 	}
-	return fmt.Sprintf("ACC ret=%s tag=%s dst=%s cr=%s %s", ret, tag, ints(present), cr, gauges)
+	return fmt.Sprintf("ACC ret=%s tag=%s dst=%s cr=%s %s%s", ret, tag, ints(present), cr, gauges, implSel(res))
 }
